@@ -371,7 +371,9 @@ def run_shard(desc, ctx):
                 if mode == "collide":
                     # multi-level keys whose stringified values run together ambiguously: (1,11) vs (11,1),
                     # ('A','BC') vs ('AB','C') - a joined comparison key without separator confuses them
-                    fam = rng.choice([["1", "11", "111"], ["A", "AB", "B", "BC", "C"], ["x", "xx"]])
+                    # ... or differ only by blanks or letter case: still different groups
+                    fam = rng.choice([["1", "11", "111"], ["A", "AB", "B", "BC", "C"], ["x", "xx"],
+                                      ["ARM A", "ARM A ", " ARM A", "ARM  A"], ["a", "A", "a ", "b"]])
                     runs = G.split_runs(rng, n, 6)
                     keys, prev = [], None
                     for ln in runs:
